@@ -97,7 +97,7 @@ class C20(Prop):
     props_file = "Props/C20.v"
     preamble = ("From Coq Require Import List ZArith QArith.\nImport ListNotations.\n"
                 "From PP Require Import Model.C20.\nOpen Scope Q_scope.\n")
-    n_cases = (30, 240)
+    n_cases = (60, 240)
     design_ref = "DESIGN.md §5 C20"
     level_text = (
         "Coq theorems over ANY commutative ring (Leibniz equality): (Mu)x(Mv) = cof(M)(uxv) for "
@@ -192,7 +192,7 @@ class C20(Prop):
             case["scale"] = 1.0 / 64
             case["pert"] = [rng.randint(-7, 7) for _ in range(24)]
             case["swap_faces"] = ([rng.randint(0, 10 ** 6) for _ in range(rng.randint(1, 2))]
-                                  if (nd == 2 and rng.random() < 0.15) else [])
+                                  if (nd == 2 and rng.random() < 0.25) else [])
             rq = rng.random()
             if rq < 0.08:
                 q = [1, 0, 0, 0]
